@@ -82,6 +82,9 @@ DEVIATIONS = {
     'fs128': {'fs': 128, 'f_range': (12, 28)},
     'nosamp': {'return_samples': False},
     'thr1': {'thr': 1},
+    'nothr': {'thr': None},                # threshold_kwargs omitted: documented defaults
+    'b0': {'boundary': 0},                  # explicit default boundary
+    'nc3': {'filter_kwargs': {'n_cycles': 3}},      # explicit default filter length
     'x1024': {'scale': 1024.0},
     'x2-10': {'scale': 2.0 ** -10},
     'x.125': {'scale': .125},
@@ -91,7 +94,7 @@ DEVIATIONS = {
     'int': {'layout': 'int'},              # integer dtype (ADC counts)
 }
 # deviations that exclude each other (same option)
-GROUPS = [('nc2', 'nc4', 'ns.5', 'ns.375'), ('b1', 'b5', 'b12'), ('band5_12', 'band7_16', 'fs128'),
+GROUPS = [('nc2', 'nc3', 'nc4', 'ns.5', 'ns.375'), ('b0', 'b1', 'b5', 'b12'), ('thr1', 'nothr'), ('band5_12', 'band7_16', 'fs128'),
           ('x1024', 'x2-10', 'x.125')]
 
 
@@ -128,9 +131,11 @@ def call_kwargs(o):
     kw = {'center_extrema': o['center_extrema'], 'burst_method': o['burst_method'],
           'return_samples': o['return_samples']}
     if o['burst_method'] == 'cycles':
-        kw['threshold_kwargs'] = dict(T0 if o['thr'] == 0 else T1)
+        if o['thr'] is not None:
+            kw['threshold_kwargs'] = dict(T0 if o['thr'] == 0 else T1)
     else:
-        kw['threshold_kwargs'] = dict(TA0 if o['thr'] == 0 else TA1)
+        if o['thr'] is not None:
+            kw['threshold_kwargs'] = dict(TA0 if o['thr'] == 0 else TA1)
         kw['burst_kwargs'] = {'amp_threshes': (.5, 1.)}
     fek = {}
     if o['filter_kwargs'] is not None:
